@@ -58,6 +58,27 @@ class Edge:
         self.info = info
 
 
+def iter_remaining(v):
+    """number of items left in an iterator over a table of known small length, else None"""
+    if not isinstance(v, tuple) or not v:
+        return None
+    if v[0] == "adt" and v[1].endswith("ops::range::Range") and len(v[4]) == 2 and v[4][0][0] == "int" and v[4][1][0] == "int":
+        n = v[4][1][1] - v[4][0][1]
+        return max(n, 0) if n <= 32 else None
+    if v[0] != "iter":
+        return None
+    if v[1] in ("slice", "array"):
+        x = v[2]
+        if x[0] in ("array", "bytes") and len(x[1]) <= 32:
+            return len(x[1])
+        if x[0] == "app" and x[1] == "subslice" and x[2][1][0] == "int" and x[2][2][0] == "int" and x[2][2][1] - x[2][1][1] <= 32:
+            return max(x[2][2][1] - x[2][1][1], 0)
+        return None
+    if v[1] in ("copied", "cloned", "enumerate"):
+        return iter_remaining(v[2])
+    return None
+
+
 class ProtocolGraph:
     MAX_NODES = 400
 
@@ -153,7 +174,9 @@ class ProtocolGraph:
         for a in st.stack:
             ctl = self.control_locals(a.fn) if not a.title else {}
             ints = tuple(sorted((l, st.frames[a.fid][l][1]) for l in ctl if l in st.frames[a.fid] and st.frames[a.fid][l][0] == "int"))
-            parts.append((a.fn["path"], a.block, ints))
+            # a loop over a table of known length is control state too: how many entries are left
+            its = tuple(sorted((l, r) for l, v in st.frames[a.fid].items() for r in (iter_remaining(v),) if r is not None))
+            parts.append((a.fn["path"], a.block, ints + its))
         return tuple(parts)
 
     def join(self, node, st):
